@@ -604,3 +604,41 @@ def rf98(run):
     if n < 8:
         raise F.AnalysisBroken('process_inlines: only %d insertions found in the main loop' % n)
     return n
+
+
+# ---------------------------------------------------------------------------------------------
+# RF113: link-time passes whose working state lives in the context are not re-entered
+# ---------------------------------------------------------------------------------------------
+
+def rf113(run):
+    rule = 'RF113'
+    run.rule(rule, 'process_inlines and simplify_func keep their working state in the context (the value table of vn_add_val, anchors, '
+                   'alloca_sizes, cold_insns, temp_insns, inline_reg_map) and reset it at their start.  Neither is reachable from '
+                   'itself in the call graph: a nested run would reset the state of the outer run, which then maps operands through stale '
+                   'value numbers of another function and loses pending cold code')
+    tu = run.tu('mir')
+    cg = tu.callgraph()
+    n = 0
+    for fn in ('process_inlines', 'simplify_func'):
+        f = tu.func(fn)
+        run.functions_analysed.add(('mir', fn))
+        # context-level state: macro-expanded `ctx->…_ctx->…` containers the function truncates / clears
+        resets = sorted({F.src(F.strip(F.call_args(x)[0]))[:60] for x in f.walk() if x['k'] == 'CallExpr' and F.call_args(x)
+                         and ((x.get('callee') or '').endswith('trunc') or (x.get('callee') or '').endswith('clear'))
+                         and 'ctx->' in F.src(F.strip(F.call_args(x)[0]))})
+        if fn == 'process_inlines' and not resets:
+            raise F.AnalysisBroken('process_inlines: no context-level working state found; the rule needs to be reviewed')
+        inner = set()
+        for c in cg.get(fn, ()):
+            if c in tu.funcs:
+                inner |= tu.reachable([c])
+        ok = fn not in inner
+        n += 1
+        run.ob(rule, (fn,), ok, {'function': fn, 'context state it resets': resets[:6], 'functions reachable from its callees': len(inner)})
+        if not ok:
+            sites = [x for x in f.walk() if x['k'] == 'CallExpr' and x.get('callee') in tu.funcs and fn in tu.reachable([x['callee']])]
+            run.violation(rule, f, '%s re-entered' % fn, '%s is reachable from itself (through `%s`): the nested run resets %s, which the outer run '
+                          'is still using; operands simplified afterwards get value numbers (registers) of the other function' %
+                          (fn, F.src(sites[0])[:50] if sites else '?', ', '.join(resets[:3]) or 'the shared working state'),
+                          line=sites[0]['l'] if sites else f.line)
+    return n
